@@ -177,6 +177,9 @@ class Transport {
  * The common base class for transport using a file descriptor.
  */
 class FileTransport : public Transport {
+#ifdef EBUSD_VERIF
+  friend struct VerifAccess;  // verification harness access (no behaviour change)
+#endif
  protected:
   /**
    * Construct a new instance.
